@@ -381,6 +381,9 @@ class Engine(Interp):
 
     def construct(self, cls, args=None, havoc=True, label=None):
         """build an actor object by executing its real __init__ on symbolic arguments, then havoc every leaf"""
+        b = getattr(self.spec, 'builders', {}).get(cls)
+        if b is not None and args is None:
+            return b(self)
         params = self.spec.ctor_params.get(cls)
         if params is None:
             raise OutOfSubset(f"no constructor parameter types for {cls}")
@@ -399,11 +402,45 @@ class Engine(Interp):
         if fi is not None:
             saved = self.cur_contract
             self.cur_contract = None
-            self.exec_inline(fi, o, [], kw, None)
+            self.building = getattr(self, 'building', 0) + 1
+            saved_stack = self.fn_stack
+            self.fn_stack = list(saved_stack)
+            try:
+                self.exec_inline(fi, o, [], kw, None)
+            finally:
+                self.building -= 1
+                self.fn_stack = saved_stack
             self.cur_contract = saved
         if havoc:
             self.havoc_object(o, cls)
         return o
+
+    def coerce_types(self, v, path, seen=None):
+        """after a real __init__: give the declared container types to still-untyped empty dict / list literals"""
+        seen = seen if seen is not None else set()
+        if id(v) in seen:
+            return
+        seen.add(id(v))
+        items = v.fields if isinstance(v, ObjV) else v.items if isinstance(v, Record) else None
+        if items is None:
+            return
+        for k in list(items):
+            p = f"{v.cls}.{k}" if isinstance(v, ObjV) else f"{path}.{k}"
+            x = items[k]
+            ty = self.spec.field_types.get(p)
+            if isinstance(x, (ObjV, Record)):
+                self.coerce_types(x, p, seen)
+            elif ty and isinstance(x, DictObj) and ty.startswith('dict:') and z3.is_int_value(z3.simplify(x.nk)) and x.vkind == 'any':
+                vt = ty.split('->', 1)[1]
+                kind = 'list' if vt.startswith('list:') else vt if vt in ('num', 'bool') else 'ref'
+                nd = self.empty_dict(kind)
+                if kind == 'list':
+                    nd.velem = vt[5:]
+                if kind == 'ref':
+                    nd.vcls = vt[4:] if vt.startswith('ref:') else vt
+                items[k] = nd
+            elif ty and isinstance(x, ListObj) and ty.startswith(('list:', 'set:')) and x.elem is None:
+                x.elem = ty.split(':', 1)[1]
 
     def havoc_object(self, o, cls, seen=None):
         seen = seen if seen is not None else set()
@@ -558,7 +595,9 @@ class Engine(Interp):
         for exc, r in c.raises.items():
             when = r.get('when')
             w = when(ctx) if when else z3.Bool(fresh_name('mayraise'))
-            if self.declares_raise(exc) or self.in_try_for(exc):
+            if getattr(self, 'building', 0):
+                self.st.assume(z3.Not(w))
+            elif self.declares_raise(exc) or self.in_try_for(exc):
                 if self.branch(w):
                     if not r.get('unchanged', True):
                         self.havoc_modifies(c, vals)
